@@ -460,6 +460,55 @@ theorem unmerge_removes_all_overlapping (s : Sheet) (c1 r1 c2 r2 : Nat)
   rw [isOverlap_eq_meets] at this
   exact noCommon_of_not_meets _ _ (by simpa using this)
 
+/-- clause "UnmergeCell removes exactly the ranges it covers" (round 5) — FULL STRENGTH on a valid
+pairwise-disjoint stored list (what every `Safe` history leaves: `merges_disjoint_of_safe`): the call
+answers ok and the new sheet is the old one with the merge list filtered — same grid, same string table,
+same style count; an entry survives iff it was there and its `Ref` shares no cell with the (sorted) argument
+range, survivors keep their order, `Ref` and cached rect (no range is rebuilt by the normalisation);
+an entry whose `Ref` is a proper rectangle survives whenever it has no cell in common with the argument. -/
+theorem unmerge_exact_on_disjoint (s : Sheet) (c1 r1 c2 r2 : Nat)
+    (h0 : ¬ (c1 = 0 ∨ r1 = 0 ∨ c2 = 0 ∨ r2 = 0)) (hd : PairwiseDisjoint s.merges) :
+    step s (.unmerge c1 r1 c2 r2) =
+      ({ s with merges := s.merges.filter fun m => !meetsB (sortRect c1 r1 c2 r2) m.ref }, .ok) ∧
+    (∀ m, m ∈ (step s (.unmerge c1 r1 c2 r2)).1.merges ↔
+      m ∈ s.merges ∧ meetsB (sortRect c1 r1 c2 r2) m.ref = false) ∧
+    (∀ m ∈ s.merges, ValidR m.ref → NoCommon (sortRect c1 r1 c2 r2) m.ref →
+      m ∈ (step s (.unmerge c1 r1 c2 r2)).1.merges) ∧
+    (∀ m ∈ (step s (.unmerge c1 r1 c2 r2)).1.merges, NoCommon (sortRect c1 r1 c2 r2) m.ref) := by
+  have hstep : step s (.unmerge c1 r1 c2 r2) =
+      ({ s with merges := s.merges.filter fun m => !meetsB (sortRect c1 r1 c2 r2) m.ref }, .ok) := by
+    simp only [step, unmergeCell, h0, if_false]
+    cases hm : s.merges with
+    | nil => cases s; simp_all
+    | cons a l =>
+      rw [← hm, mergeOverlap_id _ hd]
+      simp [hm, isOverlap_eq_meets]
+  have hq : ValidR (sortRect c1 r1 c2 r2) := by
+    unfold ValidR sortRect; constructor <;> (simp only; split <;> omega)
+  have hmem : ∀ m, m ∈ (step s (.unmerge c1 r1 c2 r2)).1.merges ↔
+      m ∈ s.merges ∧ meetsB (sortRect c1 r1 c2 r2) m.ref = false := by
+    intro m; rw [hstep]; simp [List.mem_filter]
+  refine ⟨hstep, hmem, ?_, ?_⟩
+  · intro m hm hv hn
+    exact (hmem m).mpr ⟨hm, not_meets_of_noCommon _ _ hq hv hn⟩
+  · intro m hm
+    exact noCommon_of_not_meets _ _ ((hmem m).mp hm).2
+
+/-- non-vacuity of `unmerge_exact_on_disjoint`: A1:B2, D1:E2, A4:E4 are valid and pairwise disjoint;
+`UnmergeCell(B2:D3)` removes the first two and keeps the third untouched -/
+example : PairwiseDisjoint [rA 1 1 2 2, rA 4 1 5 2, rA 1 4 5 4] ∧
+    (step { merges := [rA 1 1 2 2, rA 4 1 5 2, rA 1 4 5 4] } (.unmerge 2 2 4 3)).1.merges = [rA 1 4 5 4] := by
+  refine ⟨⟨?_, ?_⟩, by decide +kernel⟩
+  · simp only [List.pairwise_cons, List.mem_cons, List.mem_nil_iff, or_false, forall_eq_or_imp, forall_eq]
+    repeat' apply And.intro
+    all_goals
+      first
+      | exact noCommon_of_not_meets _ _ (by decide)
+      | simp
+  · intro m hm
+    simp only [List.mem_cons, List.mem_nil_iff, or_false] at hm
+    rcases hm with rfl | rfl | rfl <;> (unfold ValidR rA; decide)
+
 /-- `isOverlap` is the interval test (facts) and sees crossing rectangles; the normalisation compares
 rectangles and allocates no cell matrix -/
 theorem overlap_is_intersection (a b : Rect) :
